@@ -9,7 +9,7 @@ from typing import Dict, List, Optional, Set, Tuple
 from ..adi import BOOL_UNIVERSE, FALSE, TRUE, Interp, UnarySummary, Universe
 from ..model import AnchorError, Program, dotted, last_attr, norm, parent, walk_no_nested
 from ..report import Check
-from .common import INTERNAL_VALUE_KINDS, SINGLETONS, calls_in, guards_of, local_assignments, returns_of, value_universe
+from .common import INTERNAL_VALUE_KINDS, SINGLETONS, calls_in, guards_of, local_assignments, need_locals, returns_of, value_universe
 
 PSEUDO = {"Never": "MultiValuedValue"}
 SINGLETONS_N = dict(SINGLETONS, NO_RETURN_VALUE="Never")
@@ -253,6 +253,7 @@ def r04_abc(prog: Program, chk: Check) -> None:
         )
     # record_any_used on the base accepting path
     base = prog.func("value", "Value.can_assign")
+    need_locals(base, "other", "ctx")
     ok = False
     for n in walk_no_nested(base):
         if isinstance(n, ast.If) and "isinstance(other, AnyValue)" in norm(n.test) and "should_exclude_any()" in norm(n.test):
@@ -315,6 +316,7 @@ def r04_ef(prog: Program, chk: Check) -> None:
     chk.rule("R04.f", "a union on the left accepts what one member accepts: all own members are tried, rejection iff none accepted", floor=1)
     for m, q in (("value", "Value.can_assign"), ("value", "MultiValuedValue.can_assign"), ("value", "TypedValue.can_assign_thrift_enum")):
         fn = prog.func(m, q)
+        need_locals(fn, "other")
         r = _forall_loop(fn, lambda it: norm(it) in ("other.vals", "flatten_values(other)"))
         ok = r is not None and r[1]
         # after the loop the function accepts
@@ -327,6 +329,7 @@ def r04_ef(prog: Program, chk: Check) -> None:
             ok = bool(rets) and isinstance(rets[-1].value, ast.Call) and last_attr(rets[-1].value) == "unify_bounds_maps"
         chk.ob("R04.e", f"{m}::{q}::forall-members", ok, prog.site(m, fn), "the union-on-the-right arm must check every member of `other`, return the member's error at once and accept after the loop")
     fn = prog.func("value", "MultiValuedValue.can_assign")
+    need_locals(fn, "other", "bounds_maps")
     ok = False
     for lp in walk_no_nested(fn):
         if isinstance(lp, ast.For) and isinstance(lp.target, ast.Name) and norm(lp.iter) in ("my_vals", "self.vals"):
